@@ -16,7 +16,7 @@ fn c30_name_history_nondet_6() {
 }
 
 /// Same history with 8 steps (thorough tier).
-// @verif prop=C30 class=bounded tier=thorough bound="8 nondeterministic steps over a pool of 3 names sharing one Arc<str>" targets="Name::from_arc_unchecked,Name::clone,Name::drop,Name::as_arc,Name::to_cloned_arc,Name::as_str,From<Name> for Arc<str>" timeout=3000
+// @verif prop=C30 class=bounded tier=thorough bound="8 nondeterministic steps over a pool of 3 names sharing one Arc<str>" targets="Name::from_arc_unchecked,Name::clone,Name::drop,Name::as_arc,Name::to_cloned_arc,Name::as_str,From<Name> for Arc<str>" timeout=1800
 #[kani::proof]
 #[kani::unwind(9)]
 fn c30_name_history_nondet_8() {
